@@ -9,7 +9,8 @@
    identities for the real thing (rectangular mask, convolver_init m K = Ok c, native zero-filled arrays), and the theorems
    without suffix are the resulting hypothesis-free statements about InversionImagingWTilde / InversionImagingMapping. *)
 From Coq Require Import ZArith Reals Lra Lia List Bool Arith.
-From PAV Require Import Base.Res Base.NumOps Base.Sum Model.C03 Model.C03Lib Model.C04 Model.C04Lib Proofs.C04 Proofs.C04b.
+From PAV Require Import Base.Res Base.NumOps Base.Sum Model.C03 Model.C03Lib Model.C04 Model.C04Lib Proofs.C04 Proofs.C04b Proofs.C04c Proofs.C04d.
+From PAV Require Model.C06 Proofs.C06.
 Import ListNotations.
 Local Open Scope R_scope.
 
@@ -320,6 +321,158 @@ Theorem C04_mapped_reconstructed_data_wtilde_eq_mapping : forall m (K : @kernel 
   @mapped_wt ROps c objs n r = @mapped_mapping ROps c objs n r.
 Proof. exact mapped_wt_eq_mapped_mapping. Qed.
 
+(* ------------------------------------------------------------------ PHASE 3 *)
+(* mapped_reconstructed_data, pixel i, is ONE sum over all parameters of the stacked operated matrix: (B r)[i], in both classes
+   (the mapping class adds per-object matrix-vector products; the w-tilde class maps each mapper's slice through its unique
+   mappings, convolves it, and uses np.sum(reconstruction * operated_mapping_matrix, axis=1) for function lists) *)
+Theorem C04_mapped_reconstructed_data_mapping_is_B_r : forall (c : @convolver ROps) objs n (r : list R) i,
+  (forall o, In o objs -> shape n (params o) (opmat c o)) -> length r = tp objs -> (i < n)%nat ->
+  nth i (@mapped_mapping ROps c objs n r) 0 = sumR (map (fun a => mget (op_matrix c objs n) i a * nth a r 0) (seq 0 (tp objs))).
+Proof. exact mapped_mapping_is_stacked. Qed.
+Theorem C04_mapped_reconstructed_data_wtilde_is_B_r : forall m (K : @kernel ROps) c, rectb m = true -> @convolver_init ROps m K = Ok c ->
+  forall objs (r : list R) i, let n := length (unmasked m) in
+  (forall o, In o objs -> wf_obj c n o) -> length r = tp objs -> (i < n)%nat ->
+  nth i (@mapped_wt ROps c objs n r) 0 = sumR (map (fun a => mget (op_matrix c objs n) i a * nth a r 0) (seq 0 (tp objs))).
+Proof. exact mapped_wt_is_stacked. Qed.
+
+(* the cached properties of ONE instance (heap cells; curvature_reg_matrix adds H into the cached curvature_matrix array and deletes
+   the cache entry when there is a single linear object): every read of every sequence of reads, repeats included, returns the pure
+   value -- operated_mapping_matrix B, data_vector D, curvature_matrix F, curvature_reg_matrix F + H (F when nothing is regularized) *)
+Theorem C04_cached_reads_return_pure_values : forall (objs : list (@lobj ROps)) (Bv : @mat ROps) (Dv : list R) (Fv H : @mat ROps) qs,
+  rrun true objs Bv Dv Fv H (@ist0 ROps) qs = map (rpure objs Bv Dv Fv H) qs.
+Proof. exact rrun_pure0. Qed.
+(* the deletion of the cache entry is what makes this true: without it curvature_matrix read after curvature_reg_matrix is F + H *)
+Theorem C04_cached_reads_without_del_refuted :
+  exists (objs : list (@lobj ROps)) (Bv : @mat ROps) (Dv : list R) (Fv H : @mat ROps) (qs : list rq),
+    rrun false objs Bv Dv Fv H (@ist0 ROps) qs <> map (rpure objs Bv Dv Fv H) qs.
+Proof. exact reads_without_del_refuted. Qed.
+
+(* the w_tilde object is handed over separately (dataset.w_tilde, preloads.w_tilde, DatasetInterface.w_tilde).  Made by Imaging.w_tilde
+   of ANY dataset with the same mask, psf and noise map -- the object has no component that depends on data -- the instance is the one
+   of the theorems above *)
+Theorem C04_instance_with_w_tilde_of_same_noise_map : forall (m : mask) (K : @kernel ROps) (d s : list R) objs wt eps,
+  @inversion_w ROps m K d s (@imaging_w_tilde ROps m K s) objs wt eps = @inversion ROps m K d s objs wt eps.
+Proof. exact inversion_w_own. Qed.
+(* whatever w_tilde object is handed over, operated_mapping_matrix and data_vector are those of the data and noise map PASSED IN
+   (w_tilde_data is computed by the instance from its own dataset): they do not depend on the object *)
+Theorem C04_data_vector_independent_of_w_tilde_object : forall (m : mask) (K : @kernel ROps) (d s : list R) (w w' : @wtilde ROps) objs wt eps o o',
+  @inversion_w ROps m K d s w objs wt eps = Ok o -> @inversion_w ROps m K d s w' objs wt eps = Ok o' ->
+  o_B o = o_B o' /\ o_D o = o_D o'.
+Proof. exact inversion_w_B_D_independent_of_w. Qed.
+(* check_noise_map: an object whose noise_map_value is not noise_map[0] is refused by the w-tilde class *)
+Theorem C04_check_noise_map_refuses : forall (m : mask) (K : @kernel ROps) c (d s : list R) (w : @wtilde ROps) objs eps,
+  @convolver_init ROps m K = Ok c -> nth 0 s 0 <> w_nmv w ->
+  @inversion_w ROps m K d s w objs true eps = Raise InversionException.
+Proof. exact inversion_w_refuses. Qed.
+
+(* factory.inversion_imaging_from as a total function of (object kinds, settings.use_w_tilde, preloads.use_w_tilde) *)
+Theorem C04_factory_class_choice : forall (objs : list (@lobj ROps)) su pu,
+  factory_use_wt objs su pu = true <-> su = true /\ forallb (@is_func ROps) objs = false /\ pu <> Some false.
+Proof. exact factory_use_wt_spec. Qed.
+(* ... and the values do not depend on it: both classes exist on every valid input and agree on B (same list), D and F *)
+Theorem C04_values_independent_of_class : forall m (K : @kernel ROps) c, rectb m = true -> @convolver_init ROps m K = Ok c ->
+  forall objs (d s : list R) eps, let n := length (unmasked m) in
+  (0 < n)%nat -> length d = n -> length s = n -> (forall i, (i < n)%nat -> 0 < nth i s 0) -> (forall o, In o objs -> wf_obj c n o) ->
+  forall wt wt', exists o o', @inversion ROps m K d s objs wt eps = Ok o /\ @inversion ROps m K d s objs wt' eps = Ok o' /\
+    o_B o = o_B o' /\
+    (forall a, (a < tp objs)%nat -> nth a (o_D o) 0 = nth a (o_D o') 0) /\
+    (forall a b, (a < tp objs)%nat -> (b < tp objs)%nat -> mget (o_F o) a b = mget (o_F o') a b).
+Proof. exact inversion_values_independent_of_class. Qed.
+(* aa.Inversion(dataset, linear_obj_list, settings, preloads): whatever the two flags say and whether the w_tilde object comes from
+   the dataset or from the preloads (made from the same noise map), the instance exists and has the same values *)
+Theorem C04_inversion_from_values_independent_of_flags : forall m (K : @kernel ROps) c, rectb m = true -> @convolver_init ROps m K = Ok c ->
+  forall objs (d s : list R) eps, let n := length (unmasked m) in
+  (0 < n)%nat -> length d = n -> length s = n -> (forall i, (i < n)%nat -> 0 < nth i s 0) -> (forall o, In o objs -> wf_obj c n o) ->
+  forall su pu su' pu' pw pw',
+  (pw = None \/ pw = Some (@imaging_w_tilde ROps m K s)) -> (pw' = None \/ pw' = Some (@imaging_w_tilde ROps m K s)) ->
+  exists o o', @inversion_from ROps m K d s (@imaging_w_tilde ROps m K s) pw objs su pu eps = Ok o /\
+               @inversion_from ROps m K d s (@imaging_w_tilde ROps m K s) pw' objs su' pu' eps = Ok o' /\
+    o_B o = o_B o' /\
+    (forall a, (a < tp objs)%nat -> nth a (o_D o) 0 = nth a (o_D o') 0) /\
+    (forall a b, (a < tp objs)%nat -> (b < tp objs)%nat -> mget (o_F o) a b = mget (o_F o') a b).
+Proof. exact inversion_from_values_independent_of_flags. Qed.
+(* one instance of either class, any sequence of reads: always the instance's own B, D, F and F + H *)
+Theorem C04_inversion_reads_pure : forall m (K : @kernel ROps) c, @convolver_init ROps m K = Ok c ->
+  forall objs (d s : list R) eps wt (H : @mat ROps) qs,
+  exists o, @inversion ROps m K d s objs wt eps = Ok o /\
+    @inversion_reads ROps m K d s (@imaging_w_tilde ROps m K s) objs wt eps H qs = Ok (map (rpure objs (o_B o) (o_D o) (o_F o) H) qs).
+Proof. exact inversion_reads_pure. Qed.
+
+(* the two classes hand the SAME matrix and the SAME vector to the solver (equal lists, not only equal entries), hence the same
+   reconstruction whatever the solver (np.linalg.solve, fnnls: C05) and the regularization matrix *)
+Theorem C04_curvature_wtilde_eq_mapping_as_matrices : forall m (K : @kernel ROps) c, rectb m = true -> @convolver_init ROps m K = Ok c ->
+  forall objs (s : list R) eps, let n := length (unmasked m) in
+  objs <> [] -> (0 < n)%nat -> length s = n -> (forall i, (i < n)%nat -> 0 < nth i s 0) -> (forall o, In o objs -> wf_obj c n o) ->
+  @F_wt ROps c m K objs s eps = @F_mapping ROps c objs n s eps.
+Proof. exact F_wt_eq_F_mapping_list. Qed.
+Theorem C04_data_vector_wtilde_eq_mapping_as_vectors : forall m (K : @kernel ROps) c, rectb m = true -> @convolver_init ROps m K = Ok c ->
+  forall objs (s : list R), let n := length (unmasked m) in
+  objs <> [] -> (0 < n)%nat -> length s = n -> (forall i, (i < n)%nat -> 0 < nth i s 0) -> (forall o, In o objs -> wf_obj c n o) ->
+  forall d : list R, length d = n ->
+  @D_wt ROps c m K objs d s = @D_mapping ROps c objs d s.
+Proof. exact D_wt_eq_D_mapping_list. Qed.
+Theorem C04_reconstruction_wtilde_eq_mapping : forall m (K : @kernel ROps) c, rectb m = true -> @convolver_init ROps m K = Ok c ->
+  forall objs (s : list R) eps, let n := length (unmasked m) in
+  objs <> [] -> (0 < n)%nat -> length s = n -> (forall i, (i < n)%nat -> 0 < nth i s 0) -> (forall o, In o objs -> wf_obj c n o) ->
+  forall d : list R, length d = n ->
+  forall (solve : @mat ROps -> list R -> list R) (H : @mat ROps),
+  solve (FRv objs (@F_wt ROps c m K objs s eps) H) (@D_wt ROps c m K objs d s) =
+  solve (FRv objs (@F_mapping ROps c objs n s eps) H) (@D_mapping ROps c objs d s).
+Proof. exact reconstruction_wtilde_eq_mapping. Qed.
+
+(* ------------------------------------------------------------------ the model meets the EXECUTABLE specification of the correspondence check *)
+(* [B_spec] / [D_spec] / [F_spec] / [mapped_spec] (Model/C04.v) are what spec_ok evaluates on every implementation output: conv_full
+   (the true 2-D convolution of each column placed on the mask) and plain sums -- no frames, no preload, no blocks.  The property's
+   first sentence, for both classes: B is the column-wise PSF-blurred mapping matrix of all objects in object order, the data vector is
+   B^T N^-1 d and the curvature matrix B^T N^-1 B plus eps exactly on the diagonal entries of the parameters without regularization *)
+Theorem C04_operated_matrix_is_blurred_mapping_matrix : forall m (K : @kernel ROps) c, rectb m = true -> @convolver_init ROps m K = Ok c ->
+  (0 < length (unmasked m))%nat -> forall objs, (forall o, In o objs -> wf_obj c (length (unmasked m)) o) ->
+  op_matrix c objs (length (unmasked m)) = @B_spec ROps m K objs.
+Proof. exact op_matrix_is_B_spec. Qed.
+Theorem C04_data_vector_mapping_meets_spec : forall m (K : @kernel ROps) c, rectb m = true -> @convolver_init ROps m K = Ok c ->
+  (0 < length (unmasked m))%nat -> forall objs, (forall o, In o objs -> wf_obj c (length (unmasked m)) o) ->
+  forall s d : list R, length d = length (unmasked m) -> forall p, (p < tp objs)%nat ->
+  nth p (@D_mapping ROps c objs d s) 0 = nth p (@D_spec ROps (@B_spec ROps m K objs) d s (tp objs)) 0.
+Proof. exact D_mapping_is_D_spec. Qed.
+Theorem C04_curvature_mapping_meets_spec : forall m (K : @kernel ROps) c, rectb m = true -> @convolver_init ROps m K = Ok c ->
+  (0 < length (unmasked m))%nat -> forall objs, (forall o, In o objs -> wf_obj c (length (unmasked m)) o) ->
+  forall (s : list R) (eps : R), (forall i, (i < length (unmasked m))%nat -> nth i s 0 <> 0) ->
+  forall a b, (a < tp objs)%nat -> (b < tp objs)%nat ->
+  mget (@F_mapping ROps c objs (length (unmasked m)) s eps) a b =
+  mget (@F_spec ROps (@B_spec ROps m K objs) s (@unreg_flags ROps objs) eps) a b.
+Proof. exact F_mapping_is_F_spec. Qed.
+Theorem C04_mapped_reconstructed_data_meets_spec : forall m (K : @kernel ROps) c, rectb m = true -> @convolver_init ROps m K = Ok c ->
+  (0 < length (unmasked m))%nat -> forall objs, (forall o, In o objs -> wf_obj c (length (unmasked m)) o) ->
+  forall (r : list R) i, length r = tp objs -> (i < length (unmasked m))%nat ->
+  nth i (@mapped_mapping ROps c objs (length (unmasked m)) r) 0 = nth i (@mapped_spec ROps (@B_spec ROps m K objs) r) 0.
+Proof. exact mapped_mapping_is_mapped_spec. Qed.
+Theorem C04_data_vector_wtilde_meets_spec : forall m (K : @kernel ROps) c, rectb m = true -> @convolver_init ROps m K = Ok c ->
+  forall objs (d s : list R), let n := length (unmasked m) in
+  (0 < n)%nat -> length d = n -> length s = n -> (forall i, (i < n)%nat -> 0 < nth i s 0) -> (forall o, In o objs -> wf_obj c n o) ->
+  forall p, (p < tp objs)%nat ->
+  nth p (@D_wt ROps c m K objs d s) 0 = nth p (@D_spec ROps (@B_spec ROps m K objs) d s (tp objs)) 0.
+Proof. exact D_wt_is_D_spec. Qed.
+Theorem C04_curvature_wtilde_meets_spec : forall m (K : @kernel ROps) c, rectb m = true -> @convolver_init ROps m K = Ok c ->
+  forall objs (s : list R) eps, let n := length (unmasked m) in
+  (0 < n)%nat -> length s = n -> (forall i, (i < n)%nat -> 0 < nth i s 0) -> (forall o, In o objs -> wf_obj c n o) ->
+  forall a b, (a < tp objs)%nat -> (b < tp objs)%nat ->
+  mget (@F_wt ROps c m K objs s eps) a b = mget (@F_spec ROps (@B_spec ROps m K objs) s (@unreg_flags ROps objs) eps) a b.
+Proof. exact F_wt_is_F_spec. Qed.
+
+(* ------------------------------------------------------------------ the mapper hypothesis discharged from C06's development *)
+(* wf_obj asks of a mapper that its sparse unique-mapping triple represents its dense mapping matrix.  For ANY mapper arrays
+   (mappings, sizes, weights -- rectangular and Delaunay mappers alike) satisfying C06's [mapper_ok] on the dataset's rectangular mask,
+   the matrix built by mapper_util.mapping_matrix_from (model C06) together with the triple built by
+   mapper_util.data_slim_to_pixelization_unique_from (model C06), read as a C04 encoding by [enc_of_rows], is a well-formed C04 mapper *)
+Theorem C04_c06_mapper_is_well_formed : forall (m : mask) (subs : list nat) (P : nat) (mp : list (list Z)) (sz : list nat) (wt : list (list R)),
+  rectb m = true -> PAV.Proofs.C06.mapper_ok m subs P mp sz -> (0 < length (unmasked m))%nat -> (0 < P)%nat ->
+  exists M rows,
+    @PAV.Model.C06.mapping_matrix ROps mp sz wt P (PAV.Model.C06.count_unmasked m) (PAV.Model.C06.slim_for_sub m subs)
+       (@PAV.Model.C06.sub_fractions ROps subs) = Ok M /\
+    @PAV.Model.C06.unique_from ROps mp sz wt P subs = Ok rows /\
+    forall (c : @convolver ROps) reg, wf_obj c (length (unmasked m)) (@LMapper ROps (enc_of_rows rows) M P reg).
+Proof. exact c06_mapper_is_wf_on_mask. Qed.
+
 (* ------------------------------------------------------------------ non-vacuity of the hypothesis sets *)
 (* hypotheses of C04_curvature_is_BT_Ninv_B: a 2x2 signed matrix, two different noise values, one unregularized parameter *)
 Example ex_curv_hyps :
@@ -398,6 +551,31 @@ Proof.
       * intros d p Hd Hp. assert (p = 0%nat) by lia. subst p. destruct d as [|[|d]]; [| |lia]; unfold E, hits; cbn; lra.
 Qed.
 
+(* phase 3: the extra hypotheses of the list-equality / reconstruction theorems on the same dataset (a non-empty object list, data
+   of the mask's length), and a w_tilde object that check_noise_map refuses (made from a noise map with another first value) *)
+Example ex_phase3_hyps :
+  ex2_objs <> [] /\ length ([3; -4] : list R) = length (unmasked ex2_m) /\
+  nth 0 ([1; 2] : list R) 0 <> w_nmv (@imaging_w_tilde ROps ex2_m ex2_K [2; 2]).
+Proof.
+  split; [discriminate|]. split; [reflexivity|]. rewrite imaging_w_tilde_nmv. cbn. lra.
+Qed.
+(* a single regularized object, curvature_reg_matrix read between two reads of curvature_matrix (and twice itself): the cell model
+   hands out F, F + H, F, F + H *)
+Example ex_reads :
+  rrun true [@LMapper ROps ex2_e [[1]; [1]] 1 true] ([] : @mat ROps) ([] : list R) ([[5]] : @mat ROps) ([[2]] : @mat ROps) (@ist0 ROps) [RF; RFR; RF; RFR]
+  = [@OutM ROps [[5]]; @OutM ROps [[5 + 2]]; @OutM ROps [[5]]; @OutM ROps [[5 + 2]]].
+Proof. reflexivity. Qed.
+
+(* the hypotheses of C04_c06_mapper_is_well_formed: C06's example mapper (2 unmasked pixels, sub-sizes 1 and 2, repeated and 3-fold
+   mappings onto 4 source pixels) *)
+Example ex_c06_mapper_hyps :
+  let m := [[true; false]; [false; true]] in
+  rectb m = true /\ (0 < length (unmasked m))%nat /\
+  PAV.Proofs.C06.mapper_ok m [1; 2]%nat 4 [[2; -1; -1]; [0; 1; 3]; [3; -1; -1]; [1; 1; 2]; [0; 3; -1]]%Z [1; 3; 1; 3; 2]%nat.
+Proof.
+  cbv zeta. split; [reflexivity|]. split; [vm_compute; lia|]. apply PAV.Proofs.C06.mapper_okb_ok. vm_compute. reflexivity.
+Qed.
+
 Print Assumptions C04_data_vector_is_BT_Ninv_d.
 Print Assumptions C04_curvature_is_BT_Ninv_B.
 Print Assumptions C04_added_to_diag.
@@ -442,3 +620,24 @@ Print Assumptions C04_curvature_wtilde_symmetric.
 Print Assumptions C04_wtilde_data_vector_block.
 Print Assumptions C04_data_vector_wtilde_eq_mapping.
 Print Assumptions C04_mapped_reconstructed_data_wtilde_eq_mapping.
+Print Assumptions C04_mapped_reconstructed_data_mapping_is_B_r.
+Print Assumptions C04_mapped_reconstructed_data_wtilde_is_B_r.
+Print Assumptions C04_cached_reads_return_pure_values.
+Print Assumptions C04_cached_reads_without_del_refuted.
+Print Assumptions C04_instance_with_w_tilde_of_same_noise_map.
+Print Assumptions C04_data_vector_independent_of_w_tilde_object.
+Print Assumptions C04_check_noise_map_refuses.
+Print Assumptions C04_factory_class_choice.
+Print Assumptions C04_values_independent_of_class.
+Print Assumptions C04_inversion_from_values_independent_of_flags.
+Print Assumptions C04_inversion_reads_pure.
+Print Assumptions C04_curvature_wtilde_eq_mapping_as_matrices.
+Print Assumptions C04_data_vector_wtilde_eq_mapping_as_vectors.
+Print Assumptions C04_reconstruction_wtilde_eq_mapping.
+Print Assumptions C04_operated_matrix_is_blurred_mapping_matrix.
+Print Assumptions C04_data_vector_mapping_meets_spec.
+Print Assumptions C04_curvature_mapping_meets_spec.
+Print Assumptions C04_mapped_reconstructed_data_meets_spec.
+Print Assumptions C04_data_vector_wtilde_meets_spec.
+Print Assumptions C04_curvature_wtilde_meets_spec.
+Print Assumptions C04_c06_mapper_is_well_formed.
